@@ -5,6 +5,7 @@ import (
 	"flag"
 	"fmt"
 	"os"
+	"os/exec"
 	"path/filepath"
 	"regexp"
 	"sort"
@@ -19,11 +20,20 @@ type PropSel struct {
 	Kinds string `json:"kinds"` // regexp on obligation kind ("" = all)
 }
 
+type BoundedDef struct {
+	Name string `json:"name"`
+	Pkg  string `json:"pkg"`
+	File string `json:"file"` // test source under /verif/bounded
+	Test string `json:"test"`
+	What string `json:"what"`
+}
+
 type PropDef struct {
-	Select    []PropSel `json:"select"`
-	Level     string    `json:"level"`
-	Undecided []string  `json:"undecided_clauses"`
-	Thorough  []PropSel `json:"thorough_extra"`
+	Bounded   []BoundedDef `json:"bounded"`
+	Select    []PropSel    `json:"select"`
+	Level     string       `json:"level"`
+	Undecided []string     `json:"undecided_clauses"`
+	Thorough  []PropSel    `json:"thorough_extra"`
 }
 
 type Finding struct {
@@ -318,6 +328,28 @@ func runProperty(ld *Loader, verif, prop, tier, dir string, timeout, workers int
 	repDir := filepath.Join(verif, "replays", prop)
 	os.RemoveAll(repDir)
 	exit := 0
+	// bounded stand-ins (never counted as proved)
+	var boundedEv []map[string]interface{}
+	boundedFailures := 0
+	for _, bd := range def.Bounded {
+		res, failure, err := runBounded(ld, verif, bd, dir)
+		ev := map[string]interface{}{"function": bd.What, "label": "bounded", "result": res}
+		if err != nil {
+			fmt.Fprintf(os.Stderr, "govc: bounded stand-in %s could not run: %v\n", bd.Name, err)
+			return 2
+		}
+		if failure != "" {
+			os.MkdirAll(repDir, 0o755)
+			path := filepath.Join(repDir, "bounded_"+sanitize(bd.Name)+".json")
+			jb, _ := json.MarshalIndent(map[string]interface{}{"property": prop, "kind": "bounded stand-in", "function": bd.What, "failing_case": failure, "reproduced": true}, "", " ")
+			os.WriteFile(path, jb, 0o644)
+			fmt.Printf("VIOLATION property=%s replay=%s bounded=%s\n", prop, path, bd.Name)
+			exit = 1
+			boundedFailures++
+			ev["failure"] = failure
+		}
+		boundedEv = append(boundedEv, ev)
+	}
 	for _, o := range violations {
 		os.MkdirAll(repDir, 0o755)
 		path := filepath.Join(repDir, sanitize(o.Name)+".json")
@@ -375,6 +407,7 @@ func runProperty(ld *Loader, verif, prop, tier, dir string, timeout, workers int
 			"solver_seconds":           solverTime,
 			"vacuity":                  map[string]int{"cover_checks": covers, "cover_ok": coversOK},
 			"known_findings":           kf,
+			"bounded":                  boundedEv,
 			"undecided_clauses":        def.Undecided,
 			"contract_sources":         srcs,
 			"samples":                  samples,
@@ -382,7 +415,7 @@ func runProperty(ld *Loader, verif, prop, tier, dir string, timeout, workers int
 		},
 		"assumptions": trusted,
 		"wall_s":      time.Since(start).Seconds(),
-		"violations":  len(violations),
+		"violations":  len(violations) + boundedFailures,
 	}
 	jb, _ := json.MarshalIndent(evid, "", " ")
 	os.MkdirAll(filepath.Join(verif, "evidence"), 0o755)
@@ -390,6 +423,46 @@ func runProperty(ld *Loader, verif, prop, tier, dir string, timeout, workers int
 		fmt.Fprintln(os.Stderr, "cannot write evidence:", err)
 		return 2
 	}
-	fmt.Printf("%s %s: %d obligations, %d discharged, %d known findings, %d violations, %d functions, %.1fs\n", prop, tier, total, discharged, len(knownHit), len(violations), len(fns), time.Since(start).Seconds())
+	fmt.Printf("%s %s: %d obligations, %d discharged, %d known findings, %d violations, %d functions, %.1fs\n", prop, tier, total, discharged, len(knownHit), len(violations)+boundedFailures, len(fns), time.Since(start).Seconds())
 	return exit
+}
+
+func runBounded(ld *Loader, verif string, bd BoundedDef, dir string) (map[string]interface{}, string, error) {
+	src, err := os.ReadFile(filepath.Join(verif, "bounded", bd.File))
+	if err != nil {
+		return nil, "", err
+	}
+	p, err := ld.Load(modPath + "/" + bd.Pkg)
+	if err != nil {
+		return nil, "", err
+	}
+	tdir, err := os.MkdirTemp(dir, "bd")
+	if err != nil {
+		return nil, "", err
+	}
+	testFile := filepath.Join(tdir, "zz_govc_bounded_test.go")
+	os.WriteFile(testFile, src, 0o644)
+	ov := map[string]map[string]string{"Replace": {filepath.Join(p.Dir, "zz_govc_bounded_test.go"): testFile}}
+	ob, _ := json.Marshal(ov)
+	ovFile := filepath.Join(tdir, "ov.json")
+	os.WriteFile(ovFile, ob, 0o644)
+	cmd := exec.Command("go", "test", "-overlay", ovFile, "-vet=off", "-timeout", "120s", "-count=1", "-v", "-run", "^"+bd.Test+"$", ".")
+	cmd.Dir = p.Dir
+	cmd.Env = append(os.Environ(), "GOFLAGS=-mod=mod", "GOPROXY=off", "GOSUMDB=off", "GOTOOLCHAIN=local")
+	out, _ := cmd.CombinedOutput()
+	for _, l := range strings.Split(string(out), "\n") {
+		if i := strings.Index(l, "GOVC-BOUNDED "); i >= 0 {
+			var m map[string]interface{}
+			if err := json.Unmarshal([]byte(l[i+len("GOVC-BOUNDED "):]), &m); err != nil {
+				return nil, "", err
+			}
+			f, _ := m["failure"].(string)
+			return m, f, nil
+		}
+	}
+	// a panic inside the real function is a failure of the stand-in, not of the machinery
+	if strings.Contains(string(out), "panic:") {
+		return map[string]interface{}{"output": truncate(string(out), 800)}, "the real function panicked: " + truncate(string(out), 400), nil
+	}
+	return nil, "", fmt.Errorf("no output: %s", truncate(string(out), 500))
 }
